@@ -105,8 +105,8 @@ PROPS = {
                  'reading of the statement: collection is in snapshot order by design, an older open snapshot pins later garbage (recorded by-design finding D18)'],
     ),
     'C05': dict(
-        modules=['NitroVerif.Props.C05'],
-        runs=[('mvcc', gens.gen_backup, 120, 6000)],
+        modules=['NitroVerif.Props.C05', 'NitroVerif.Props.C10', 'NitroVerif.Props.C18'],
+        runs=[('mvcc', gens.gen_backup, 120, 6000), ('mvcc', gens.gen_mvcc_visit, 100, 5000)],
         keep_prefix=1,
         level='proof',
         level_text='C05_roundtrip (any partition of the content into shard files), C05_roundtrip_delta_general and C05_delta_any_interleaving are proved on the backup model over an abstract file system (framing from C19, assembly in file order); that the Visitor produces a partition is C10, that the assembled list is well formed is C18. Differential: random histories, store of any open snapshot with mutation and collection during the backup (delta on/off), restore into a fresh instance, scan, continue the history',
@@ -169,6 +169,38 @@ PROPS = {
                  'crash-point and write-budget enumeration on the real StoreToDisk/LoadFromDisk',
                  'a crash keeps exactly the file-system effects issued so far (no torn writes below the granularity of a write call, no reordering by the OS)'],
     ),
+    'C04': dict(
+        modules=['NitroVerif.Props.C04', 'NitroVerif.Props.C16'],
+        iruns=[('mvccconc', gens.gen_mvccconc, 120, 5000)],
+        runs=[('mvcc', gens.gen_mvcc_mm, 150, 10000)],
+        keep_prefix=1,
+        level='proof',
+        level_text='C04_no_use_after_free, C04_references_valid, C04_no_double_free, C04_freed_not_linked, C04_one_owner are proved for every schedule of writers, readers, snapshot closes, collection jobs and free jobs on the small-step MVCC model with blocks and an abstract access barrier (acquire/release/flush atomic, destructors in session order once all earlier accessors left — which is what C16/C17 prove of the real barrier, included in this check). PARTIAL in this sense: the composition "barrier theorem + atomic skiplist operations (C13) imply the abstract model" is argued, not mechanised, and machine-level memory safety of unsafe pointer arithmetic is outside any model. Every memory-managed run uses the guard allocator (double/invalid free at the call, poison re-verified), the steered engine drives the reclamation pipeline job by job',
+        trusted=['Lean 4 kernel', 'tools/gofacts skeletons of DeleteNode/Delete2/collectionWorker/freeWorker and barrier guards',
+                 'steered schedules on the real Nitro (user-managed memory, guard allocator), every trace validated against the model, allocator books compared after shutdown',
+                 'abstract barrier justified by C16/C17; skiplist operations atomic justified by C13; neither composition is mechanised',
+                 'unsafe pointer packing and the Go runtime are not modelled'],
+    ),
+    'C07': dict(
+        modules=['NitroVerif.Props.C07', 'NitroVerif.Props.C17'],
+        iruns=[('mvccconc', gens.gen_mvccconc, 120, 5000)],
+        runs=[('mvcc', gens.gen_mvcc_mm, 150, 10000), ('mvcc', gens.gen_backup, 60, 3000)],
+        keep_prefix=1,
+        level='proof',
+        level_text='C07_balanced (for every schedule that ends quiescent, after shutdown every allocated block has been freed exactly once: no leak, no double free, nothing freed that was not allocated), C07_live_iff_owned, C07_quiescent_only_linked on the small-step model; uses the barrier liveness C17 (included). Instances populated by LoadFromDisk are covered by the differential runs (restore, continue, shutdown with the guard allocator) rather than by the small-step model',
+        trusted=['Lean 4 kernel', 'tools/gofacts skeletons of Nitro.Close/freeWorker/collectionWorker',
+                 'guard allocator books (live blocks, bad frees, poison) compared with the model after every shutdown, sequential and steered, including restored instances',
+                 'abstract barrier justified by C16/C17 (composition argued, not mechanised)'],
+    ),
+    'C03': dict(
+        modules=['NitroVerif.Props.C03', 'NitroVerif.Props.C13c'],
+        iruns=[('mvccconc', gens.gen_mvccconc, 150, 6000)],
+        level='proof',
+        level_text='C03_linearizable_atomic_search_partial: for every number of writers and every schedule of all actions (writers, readers, closes, collection and free jobs, any number of epochs) the constructed linearization (decisive step of each call; a losing Delete at the winner step) replays on the reference set with every observed result and each point lies between call and return; C03_next_snapshot, C03_one_winner, C03_same_node_losers. PARTIAL: every skiplist operation is one atomic action of this model; that is justified by the concurrent skiplist theorems C13 (updates linearize at the publish / level-0 mark, misses are absent at an instant inside the call), whose composition with this model is argued, not mechanised',
+        trusted=['Lean 4 kernel', 'tools/gofacts guards and skeletons of Put2/Delete2/DeleteNode',
+                 'steered writers on the real Nitro at the nitro-level yield points (same key hit by several writers, same-epoch and cross-epoch deletes), every trace validated against the model',
+                 'atomicity of a skiplist operation inside a step (C13); sync/atomic operations sequentially consistent'],
+    ),
 }
 
 
@@ -195,7 +227,15 @@ def check(prop, tier, seed, no_build=False):
     with C.Lock():
         if not no_build:
             status, text = C.regenerate_guards(result)
-            backup = open(C.GUARDS).read()
+            # the reference guards are the committed copy Guards.ref (what the theorems were last proved against
+            # on the unchanged tree), not whatever an earlier run on a changed tree may have left in Guards.lean
+            refp = os.path.join(os.path.dirname(C.GUARDS), 'Guards.ref')
+            backup = open(refp).read() if os.path.exists(refp) else open(C.GUARDS).read()
+            if status == 'ok' and text is not None and text != backup:
+                status = 'changed'
+            if status == 'changed' and text == backup:
+                status = 'ok'
+                open(C.GUARDS, 'w').write(text)
             if status == 'changed':
                 open(C.GUARDS, 'w').write(text)
                 cov['guards_regenerated'] = 'changed with respect to the last generated file'
